@@ -2,7 +2,7 @@
   C09 — property theorems about nested guards (a command with redirections inside a command with
   redirections; model: Nested.lean).  Statements and non-vacuity examples ONLY (lemmas: NestedLemmas.lean).
 -/
-import YashModel.Redir.NestedLemmas
+import YashModel.Redir.NestedSpec
 namespace YashModel.Redir
 open YashModel.Generated.RedirConsts
 
@@ -60,6 +60,112 @@ example :
       [⟨3, .file .fileOut 4⟩, ⟨1, .file .fileOut 4⟩]
     (r.tr.t.get 3).isSome = true ∧ r.tr.t.get 1 = stdTable.get 1 ∧ r.tr.t.get 10 = none ∧ r.tr.t.get 11 = none := by
   decide
+
+/-! ### the body changed the table: `exec` inside a redirected command -/
+
+variable {W : Type}
+
+/-- ★ `undo_restores` for a body that does not leave the table alone (an `exec` in the body, a nested
+    command whose `exec` persists, anything): for every oracle, WF table and list, `undo_redirs` run on
+    ANY table `A` with the same limit that still has the guard's saved copies where the guard put them
+    gives back every descriptor the guard speaks of — each target it changed, each slot of a saved copy —
+    exactly as it was before the list was performed, and leaves every other descriptor as `A` has it.
+    (`A` = the redirected table itself is `undo_restores`.) -/
+theorem undo_restores_after_body (o : Oracle W) (w : W) (t : FdTable) (rs : List Redir) (hw : WF t) (A : FdTable)
+    (hl : A.limit = t.limit)
+    (hA : ∀ s ∈ (performRedirs o w t rs).saved, ∀ sv, s.save = some sv → A.get sv = (performRedirs o w t rs).t.get sv) :
+    (undoRedirs A (performRedirs o w t rs).saved).limit = t.limit ∧
+    ∀ fd, (Touched (performRedirs o w t rs).saved fd → (undoRedirs A (performRedirs o w t rs).saved).get fd = t.get fd) ∧
+      (¬ Touched (performRedirs o w t rs).saved fd → (undoRedirs A (performRedirs o w t rs).saved).get fd = A.get fd) :=
+  undo_after_body o rs w t hw A hl hA
+
+/-- when the whole list succeeded, the descriptors the guard speaks of are the targets the list names and
+    the slots of the saved copies -/
+theorem touched_iff_target_or_save (o : Oracle W) (w : W) (t : FdTable) (rs : List Redir)
+    (h : (performRedirs o w t rs).err = none) (fd : Fd) :
+    Touched (performRedirs o w t rs).saved fd ↔
+      (∃ r ∈ rs, r.fd = fd) ∨ ∃ s ∈ (performRedirs o w t rs).saved, s.save = some fd := by
+  constructor
+  · rintro ⟨s, hs, h1 | h2⟩
+    · have hm : fd ∈ (performRedirs o w t rs).saved.map (·.original) := List.mem_map.mpr ⟨s, hs, h1⟩
+      rw [performRedirs_originals o w t rs h] at hm
+      obtain ⟨r, hr, hrf⟩ := List.mem_map.mp hm
+      exact .inl ⟨r, hr, hrf⟩
+    · exact .inr ⟨s, hs, h2⟩
+  · rintro (⟨r, hr, rfl⟩ | ⟨s, hs, hsv⟩)
+    · exact touched_of_target o w t rs h r hr
+    · exact ⟨s, hs, .inr hsv⟩
+
+/-- ★ a nested command whatever its inner command is and did — a successful `exec` included: when the
+    outer command is done, every descriptor the outer guard speaks of (its targets, the slots of its
+    saved copies) is what it was before the outer command, and every other descriptor is what the inner
+    command left -/
+theorem nested_any_inner (w : World) (t : FdTable) (outer : List Redir) (ki : Kind) (inner : List Redir) (prev : Nat)
+    (hw : WF t) (wi : World) (ti : FdTable) (tri : Trace)
+    (hin : (runNested w t outer ki inner prev).inner = some (wi, ti, tri)) :
+    (runNested w t outer ki inner prev).tr.t.limit = t.limit ∧
+    ∀ fd, (Touched (performRedirs worldOracle w t outer).saved fd →
+            (runNested w t outer ki inner prev).tr.t.get fd = t.get fd) ∧
+          (¬ Touched (performRedirs worldOracle w t outer).saved fd →
+            (runNested w t outer ki inner prev).tr.t.get fd = tri.t.get fd) :=
+  nested_any_inner' w t outer ki inner prev hw wi ti tri hin
+
+/-- ★ "except for redirections on `exec`, which persist", two guards deep: after `{ exec inner…; } outer…`
+    with both lists successful, a descriptor the outer list names (or a slot of its saved copies) is what
+    it was before the outer command — whatever `exec` made of it goes away with the outer list —; every
+    other descriptor is what `exec`'s list made of it with `exec`'s own saved copies closed
+    (`preserve_redirs`); in particular a descriptor below 10 that `exec` names and the outer list does not
+    keeps its new meaning, and one that neither names is untouched -/
+theorem nested_exec_persists (w : World) (t : FdTable) (outer : List Redir) (ki : Kind) (inner : List Redir) (prev : Nat)
+    (hw : WF t) (hk : ki.isExec = true) (ho : (performRedirs worldOracle w t outer).err = none)
+    (hi : (performRedirs worldOracle (performRedirs worldOracle w t outer).w
+            (performRedirs worldOracle w t outer).t inner).err = none) :
+    let g := performRedirs worldOracle w t outer
+    let g2 := performRedirs worldOracle g.w g.t inner
+    ∀ fd, (Touched g.saved fd → (runNested w t outer ki inner prev).tr.t.get fd = t.get fd) ∧
+      (¬ Touched g.saved fd →
+        (runNested w t outer ki inner prev).tr.t.get fd = (preserveRedirs g2.t g2.saved).get fd ∧
+        (fd < minInternalFd → (runNested w t outer ki inner prev).tr.t.get fd = g2.t.get fd) ∧
+        ((∀ r ∈ inner, r.fd ≠ fd) → fd < minInternalFd → (runNested w t outer ki inner prev).tr.t.get fd = t.get fd)) := by
+  intro g g2 fd
+  have hsome : (runNested w t outer ki inner prev).inner =
+      some (g.w, g.t, runCommand g.w g.t ki inner prev) := by
+    unfold runNested
+    have : (performRedirs worldOracle w t outer).err.isSome = false := by rw [ho]; rfl
+    simp only [this, Bool.false_eq_true, ↓reduceIte]
+    rfl
+  obtain ⟨_, hF⟩ := nested_any_inner' w t outer ki inner prev hw _ _ _ hsome
+  refine ⟨(hF fd).1, fun hnt => ?_⟩
+  have h1 := (hF fd).2 hnt
+  rw [exec_persists g.w g.t ki inner prev hk hi] at h1
+  obtain ⟨_, _, hlow, _⟩ := preserve_keeps_targets worldOracle g.w g.t inner
+  refine ⟨h1, fun hlt => by rw [h1]; exact hlow fd hlt, fun hni hlt => ?_⟩
+  rw [h1, hlow fd hlt, (only_targets_change worldOracle g.w g.t inner).2.2 fd hni hlt]
+  exact untouched_frame worldOracle w t outer ho fd hnt
+
+-- non-vacuity: `{ exec 3>b 1>b; } 1>a`: 1 (named by both) comes back, 3 (named by `exec` only) stays on b
+example : (performRedirs worldOracle (stdWorld false) stdTable [⟨1, .file .fileOut 3⟩]).err = none ∧
+    (performRedirs worldOracle
+      (performRedirs worldOracle (stdWorld false) stdTable [⟨1, .file .fileOut 3⟩]).w
+      (performRedirs worldOracle (stdWorld false) stdTable [⟨1, .file .fileOut 3⟩]).t
+      [⟨3, .file .fileOut 4⟩, ⟨1, .file .fileOut 4⟩]).err = none := by decide
+
+/-! ### the Spec column of nested commands -/
+
+/-- ★ the Spec column on the model's own run for every `Cmd` — plain or nested, any inner kind, a
+    persisting inner `exec` included: `specVerdictCmd` is `ok` for every world and table meeting `WF` and
+    `Bounded` (restoration at both levels or persistence, nothing at or above 10 left but what a
+    persisting `exec` named, no CLOEXEC descriptor below 10 left or shown, saved copies of both guards
+    at or above 10 and CLOEXEC) -/
+theorem spec_verdict_cmd_ok (w : World) (t : FdTable) (prev : Nat) (c : Cmd) (hw : WF t) (hb : Bounded w t) :
+    specVerdictCmd t c (runCmd w t prev c) = "ok" :=
+  spec_verdict_cmd_ok' w t prev c hw hb
+
+/-- … and over whole scripts: every verdict the driver prints for a command of `runScript2` is `ok`
+    (`runCmd_wf`, `runCmd_bounded` re-establish the hypotheses command after command) -/
+theorem script2_spec_ok (w : World) (t : FdTable) (prev : Nat) (cmds : List Cmd) (hw : WF t) (hb : Bounded w t) :
+    ∀ p ∈ (runScript2 w t prev cmds).zip cmds, specVerdictCmd p.1.1 p.2 p.1.2 = "ok" :=
+  script2_spec_ok_aux cmds w t prev hw hb
 
 /-- the driver's `runScript2` on plain commands is `runScript`: everything proved of `runScript`
     (`script_sound`) is about what the driver runs -/
